@@ -4,4 +4,3 @@ import "go/types"
 
 type typesPackage = types.Package
 
-func cmdSelftest(args []string) int { return 2 }
